@@ -16,12 +16,81 @@ def nontrivial(c, mobs):
 
 def tie(rep, tier, rng, model_ok):
     q = tier == "quick"
+    rep.cov.setdefault("parts", {})
     a = simprops.corpus_cases("C08") + [simgen.gen_req(rng) for _ in range(500 if q else 15000)]
     b = [simgen.gen_sched(rng) for _ in range(200 if q else 5000)]
     simprops.run(rep, "C08", model_ok,
                  [("requests", a, (1, 3) if q else (1, 2, 4, 8), (oracles.o_harness, oracles.o_time, oracles.o_terminated), nontrivial),
                   ("sched-1thread", b, (1,), ORACLES, nontrivial)],
-                 "requests: past/present/future x absolute/relative deadlines x zero/non-zero periods x all request kinds (Scheduler::schedule_*, Context::schedule_*, EventSource actions via Scheduler::schedule) from driver and handlers; every stepping call is watch-dogged (a hang is an observation). non-trivial = at least two different request outcomes")
+                 "threaded: Scheduler::schedule_*event called from a second thread, parked inside a user-defined Deadline::into_time while the main thread runs step(); the outcome must be one of the two linearisations of Sim.v. requests: past/present/future x absolute/relative deadlines x zero/non-zero periods x all request kinds (Scheduler::schedule_*, Context::schedule_*, EventSource actions via Scheduler::schedule) from driver and handlers; every stepping call is watch-dogged (a hang is an observation). non-trivial = at least two different request outcomes")
+    race_part(rep, rng, model_ok, 24 if q else 400)
+
+
+def race_part(rep, rng, model_ok, n):
+    """Scheduling requests issued from another thread while the main thread steps.  The request is
+    parked inside Deadline::into_time (a user-defined deadline), which the scheduler must evaluate -
+    together with its read of the current time - under the queue lock.  The observed outcome
+    (request answer, step result, time, handlers) must equal one of the two linearisations of the
+    model: request before the step, or step before the request."""
+    import copy, vlib, simcase, simcheck
+    cases, variants = [], []
+    for _ in range(n):
+        kind = rng.randrange(4)
+        t1 = rng.choice([50, 60, 100])
+        tr = rng.choice([10, 20, 30, t1, t1 + 10])
+        m = {"cap": rng.choice([2, 8]), "handlers": [[], []], "outs": []}
+        pre = [("se", ("a", t1), 0, 0, 7, None, None)]
+        if rng.random() < 0.3:
+            pre = [("se", ("a", 5), 0, 1, 6, None, None), ("st",)] + pre
+        post = [("st",), ("st",)]
+        base = {"models": [m], "sinks": [], "mode": "seq", "tags": {"race"}, "t0": 0, "clock": [], "sources": []}
+        c = dict(base); c["cmds"] = pre + [("rc", kind, tr, 0, 1, 8)] + post
+        per = 1000 if kind >= 2 else None
+        slot = 5 if kind in (1, 3) else None
+        se = ("se", ("a", tr), 0, 1, 8, slot, per)
+        a = dict(base); a["cmds"] = pre + [se, ("st",)] + post
+        b = dict(base); b["cmds"] = pre + [("st",), se] + post
+        cases.append(c); variants.append((len(pre), a, b))
+    lines = [simcase.render(c, bugs=simcheck.current_bugs()) for c in cases]
+    outs = simcheck.run_impl(lines)
+    mlines = []
+    for (_, a, b) in variants:
+        mlines += [simcase.render(a, bugs=simcheck.current_bugs()), simcase.render(b, bugs=simcheck.current_bugs())]
+    mouts = vlib.run_model(mlines) if model_ok else None
+    bad = []
+    for k, (c, o) in enumerate(zip(cases, outs)):
+        iobs = simcase.parse_out(o)
+        if iobs is None:
+            bad.append((k, "no observations: %s" % o[:200])); continue
+        e = oracles.o_time(dict(c, cmds=[x if x[0] != "rc" else ("st",) for x in c["cmds"]]), iobs)
+        if e:
+            bad.append((k, e)); continue
+        if mouts is None:
+            continue
+        npre, a, b = variants[k]
+        ok = False
+        for j, tag in ((0, "A"), (1, "B")):
+            mobs = simcase.parse_out(mouts[2 * k + j])
+            if mobs is None:
+                continue
+            # merge the two model commands that stand for the race
+            i0 = npre + 1
+            x, y = mobs[i0], mobs[i0 + 1]
+            (sched, step) = (x, y) if tag == "A" else (y, x)
+            merged = ("race:%s:%s" % (sched[0].split(":")[1], step[0]), y[1], step[2])
+            mm = mobs[:i0] + [merged] + mobs[i0 + 2:]
+            if simcase.canon(iobs, "seq") == simcase.canon(mm, "seq"):
+                ok = True
+        if not ok:
+            bad.append((k, "the outcome matches neither linearisation (request before the step / step before the request)"))
+    rep.cov["evaluations"] += len(cases)
+    rep.cov["parts"]["threaded-requests"] = {"cases": len(cases), "failures": len(bad)}
+    rep.cov["samples"].append({"case": lines[0], "impl": outs[0][:300]})
+    if bad:
+        k, why = bad[0]
+        rep.violation("threaded-requests", {"kind": "property-violated-on-implementation", "why": why, "case": lines[k], "observed": outs[k][:1500],
+                                            "model_request_first": mouts[2 * k] if mouts else None, "model_step_first": mouts[2 * k + 1] if mouts else None,
+                                            "failures": len(bad)})
 
 
 def replay(rep, path, model_ok):
